@@ -338,7 +338,7 @@ def install(eng):
             nm = st.cstr(a[0]).decode()
             k = st.syms.get(nm, 0); st.syms[nm] = k + 1
             full = '%s#%d' % (nm, k)
-            st.symlist.append((full, bits))
+            if (full, bits) not in st.symset: st.symlist.append((full, bits)); st.symset.add((full, bits))
             return z3.BitVec(full, bits)
         return f
     S['__vp_sym_u8'] = sym(8); S['__vp_sym_u16'] = sym(16); S['__vp_sym_u32'] = sym(32); S['__vp_sym_u64'] = sym(64); S['__vp_sym_f32'] = sym(32)
@@ -354,6 +354,9 @@ def install(eng):
         if m is None: raise PathEnd('infeasible')
         st.pc.append(c); st.model = m
     S['__vp_assume'] = assume
+    def sym_reset(eng, st, fr, a, work, ins):
+        st.syms = {}
+    S['__vp_sym_reset'] = sym_reset
     def choice(eng, st, fr, a, work, ins):
         nm = st.cstr(a[0]).decode(); n = a[1]
         forced = st.forced_choices
